@@ -7,26 +7,29 @@ import json, os, subprocess, sys, glob, re
 from concurrent.futures import ThreadPoolExecutor
 V='/verif'
 props=[c['property_id'] for c in json.load(open(V+'/MANIFEST.json'))['checks']]
-if subprocess.run(['git','-C','/repo','status','--porcelain'],capture_output=True,text=True).stdout.strip():
-    sys.exit('/repo is not clean')
+import tempfile, shutil
+# every patch is applied to a scratch copy of /repo (outside /repo and /verif, removed afterwards)
 env=dict(os.environ, GOFLAGS='-mod=mod', GOPROXY='off', GOSUMDB='off', GOTOOLCHAIN='local'); env.pop('GOWORK',None)
-def run(p, out):
+def run(p, out, repo):
     os.makedirs(out, exist_ok=True)
-    r=subprocess.run([V+'/bin/dcverif','check',p,'--repo','/repo','--out',out,'--known',V+'/known_findings.json'],capture_output=True,text=True,env=env)
+    r=subprocess.run([V+'/bin/dcverif','check',p,'--repo',repo,'--out',out,'--known',V+'/known_findings.json'],capture_output=True,text=True,env=env)
     keys=re.findall(r'^  (C\d+/\S+@.*?) \[(violated|undecided)\]',r.stdout,re.M)
     return p, r.returncode, [k for k,_ in keys][:6], (r.stderr[-300:] if r.returncode==2 else '')
 bad=0
 for d in sys.argv[1:]:
     for f in sorted(glob.glob(os.path.abspath(d)+'/*.diff')):
         name=os.path.basename(d.rstrip('/'))+'/'+os.path.basename(f)
-        a=subprocess.run(['git','-C','/repo','apply',f],capture_output=True,text=True)
+        tmp=tempfile.mkdtemp(prefix='dcverif-rf-')
+        repo=tmp+'/repo'
+        subprocess.run(['rsync','-a','--exclude','.git','/repo/',repo+'/'],check=True)
+        a=subprocess.run(['patch','-p1','-s','-f','--no-backup-if-mismatch','-d',repo,'-i',f],capture_output=True,text=True)
         if a.returncode!=0:
-            print('%-28s patch does not apply: %s'%(name,a.stderr.strip()[:120])); continue
+            print('%-28s patch does not apply: %s'%(name,(a.stdout+a.stderr).strip()[:120])); shutil.rmtree(tmp,ignore_errors=True); continue
         try:
             with ThreadPoolExecutor(10) as ex:
-                res=list(ex.map(lambda p: run(p,'/tmp/rfout/'+name.replace('/','_')+'/'+p), props))
+                res=list(ex.map(lambda p: run(p,tmp+'/out/'+p,repo), props))
         finally:
-            subprocess.run(['git','-C','/repo','checkout','--','.']); subprocess.run(['git','-C','/repo','clean','-fdq'])
+            shutil.rmtree(tmp,ignore_errors=True)
         al=[(p,rc,k,e) for p,rc,k,e in res if rc!=0]
         if not al: print('%-28s silent (%d checks)'%(name,len(res)))
         for p,rc,k,e in al:
